@@ -71,6 +71,19 @@ def build_all() -> str:
     return "ok:built"
 
 
+def _warm_up():
+    """every pattern is turned into an expression once when the module is imported (in the exploration AND in the replay
+    process alike): whatever the library memoises per class / field from one pattern is in place when another is checked"""
+    for lits in PATTERNS:
+        try:
+            make_pattern(lits).as_regular_expression()
+        except Exception:
+            pass
+
+
+_warm_up()
+
+
 def _check(ix, raw):
     lits = PATTERNS[ix]
     pattern = make_pattern(lits)
